@@ -83,7 +83,10 @@ impl MergeSeq {
         }
 
         Self {
-            total_len: values.iter().map(|v| v.len()).sum(),
+            // unknown when one part has no length or the sum does not fit
+            total_len: values.iter().try_fold(0usize, |sum, v| {
+                v.len().and_then(|len| sum.checked_add(len))
+            }),
             values: values.into_boxed_slice(),
             repr,
             depth,
